@@ -2,9 +2,10 @@ package props
 
 import (
 	"fmt"
-	"os"
 	"go/constant"
 	"go/token"
+	"go/types"
+	"os"
 	"sort"
 	"strings"
 
@@ -110,17 +111,72 @@ func (s *Symbols) strVal(v ssa.Value, env Env) (string, bool) {
 // walking the helper with its parameters bound to the evaluated arguments.
 func (s *Symbols) evalBoolHelper(call *ssa.Call, env Env, depth int) (bool, bool) {
 	h := call.Call.StaticCallee()
+	if h == nil || h.Signature.Results().Len() != 1 {
+		return false, false
+	}
+	v, s2, env2, ok := s.helperResult(call, env, depth, 0)
+	if !ok {
+		return false, false
+	}
+	if k, ok := v.(*ssa.Const); ok && k.Value != nil && k.Value.Kind() == constant.Bool {
+		return constant.BoolVal(k.Value), true
+	}
+	// a returned comparison
+	if b, ok := v.(*ssa.BinOp); ok {
+		return s2.evalCond(b, env2, 0, "")
+	}
+	return false, false
+}
+
+// evalVerdictHelper evaluates a call of a small same-module checker whose last result is an error: does it
+// return nil under env?
+func (s *Symbols) evalVerdictHelper(call *ssa.Call, env Env) (succeeds bool, known bool) {
+	h := call.Call.StaticCallee()
+	if h == nil {
+		return false, false
+	}
+	idx := ssau.VerdictIndex(h.Signature)
+	if idx < 0 || !types.IsInterface(h.Signature.Results().At(idx).Type()) {
+		return false, false
+	}
+	v, _, _, ok := s.helperResult(call, env, s.helperDepth, idx)
+	if !ok {
+		return false, false
+	}
+	if ssau.IsNilConst(v) {
+		return true, true
+	}
+	if _, ok := v.(*ssa.MakeInterface); ok {
+		return false, true
+	}
+	if cl, ok := v.(*ssa.Call); ok && ssau.ErrCtor(cl.Call.StaticCallee()) {
+		return false, true
+	}
+	return false, false
+}
+
+// helperResult walks the helper called at call as if inlined (the caller's variables stay visible, parameters
+// that evaluate to strings or integers are bound) and returns the value it returns in position idx, with phis
+// resolved along the walked path.
+func (s *Symbols) helperResult(call *ssa.Call, env Env, depth int, idx int) (ssa.Value, *Symbols, Env, bool) {
+	h := call.Call.StaticCallee()
 	if h == nil || h.Pkg == nil || depth > 2 || len(h.Blocks) == 0 || len(h.Blocks) > 30 || !strings.HasPrefix(h.Pkg.Pkg.Path(), "github.com/elastos/Elastos.ELA") {
-		return false, false
+		return nil, nil, Env{}, false
 	}
-	res := h.Signature.Results()
-	if res.Len() != 1 {
-		return false, false
-	}
+	// the helper is evaluated as if inlined: the caller's variables stay visible, the parameters are added
 	env2 := Env{B: map[string]bool{}, I: map[string]int64{}, S: map[string]string{}}
+	for k, v := range env.B {
+		env2.B[k] = v
+	}
+	for k, v := range env.I {
+		env2.I[k] = v
+	}
+	for k, v := range env.S {
+		env2.S[k] = v
+	}
 	for i, p := range h.Params {
 		if i >= len(call.Call.Args) {
-			return false, false
+			return nil, nil, Env{}, false
 		}
 		a := call.Call.Args[i]
 		if x, ok := s.strVal(a, env); ok && s.Str != nil {
@@ -138,31 +194,58 @@ func (s *Symbols) evalBoolHelper(call *ssa.Call, env Env, depth int) (bool, bool
 		}
 		return 0, false
 	}
+	bound := func(i int, m map[string]int64, ms map[string]string) bool {
+		k := fmt.Sprintf("$p%d", i)
+		if _, ok := m[k]; ok {
+			return true
+		}
+		_, ok := ms[k]
+		return ok
+	}
 	s2 := &Symbols{
 		Str: func(v ssa.Value) (string, bool) {
-			if i, ok := pidx(v); ok {
+			if i, ok := pidx(v); ok && bound(i, nil, env2.S) {
 				return fmt.Sprintf("$p%d", i), true
+			}
+			if s.Str != nil {
+				return s.Str(v)
 			}
 			return "", false
 		},
 		Int: func(v ssa.Value) (string, bool) {
-			if i, ok := pidx(v); ok {
+			if i, ok := pidx(v); ok && bound(i, env2.I, nil) {
 				return fmt.Sprintf("$p%d", i), true
+			}
+			if s.Int != nil {
+				return s.Int(v)
 			}
 			return "", false
 		},
+		Bool:      s.Bool,
+		Nil:       s.Nil,
+		Custom:    s.Custom,
+		LoopIters: s.LoopIters,
+	}
+	if s.Str == nil {
+		// keep string comparison disabled for callers that have no string symbols, except on bound parameters
+		if len(env2.S) == 0 {
+			s2.Str = nil
+		}
 	}
 	s2.helperDepth = depth + 1
-	r := ssau.AbsWalk(h, ssau.AbsEnvFunc(func(i *ssa.If, visit int) (bool, bool) {
-		return s2.evalCond(i.Cond, env2, visit, i.Block().Comment)
-	}))
-	if r.Unknown != nil || r.Ret == nil || len(r.Ret.Results) != 1 {
+	var r ssau.AbsResult
+	ssau.WithParamSubst(call, func() {
+		r = ssau.AbsWalk(h, ssau.AbsEnvFunc(func(i *ssa.If, visit int) (bool, bool) {
+			return s2.evalCond(i.Cond, env2, visit, i.Block().Comment)
+		}))
+	})
+	if r.Unknown != nil || r.Ret == nil || idx >= len(r.Ret.Results) {
 		if os.Getenv("ELACHECK_DEBUG") != "" {
 			fmt.Fprintf(os.Stderr, "evalBoolHelper %s: unknown=%v err=%q env=%v\n", h.Name(), r.Unknown, r.Err, env2)
 		}
-		return false, false
+		return nil, nil, Env{}, false
 	}
-	v := r.Ret.Results[0]
+	v := ssau.ResolveSpill(r.Ret.Results[idx])
 	// resolve (nested) phis along the path actually walked
 	for n := 0; n < 8; n++ {
 		phi, ok := v.(*ssa.Phi)
@@ -191,14 +274,7 @@ func (s *Symbols) evalBoolHelper(call *ssa.Call, env Env, depth int) (bool, bool
 		}
 		v = next
 	}
-	if k, ok := v.(*ssa.Const); ok && k.Value != nil && k.Value.Kind() == constant.Bool {
-		return constant.BoolVal(k.Value), true
-	}
-	// a returned comparison
-	if b, ok := v.(*ssa.BinOp); ok {
-		return s2.evalCond(b, env2, 0, "")
-	}
-	return false, false
+	return v, s2, env2, true
 }
 
 func cmp(op token.Token, a, b int64) (bool, bool) {
@@ -312,6 +388,14 @@ func (c *Ctx) Decision(rule, key string, fn *ssa.Function, syms *Symbols, envs [
 		// a phi-merged return: decide by the incoming edge actually taken
 		if got && len(res.Trace) >= 2 {
 			got = c.retSucceedsAlong(ec, res)
+		}
+		// the verdict is delegated to a small checker of the repository: evaluate it under the same valuation
+		if got && ec.Idx < len(res.Ret.Results) {
+			if cl, ok := resolveAlong(ssau.ResolveSpill(res.Ret.Results[ec.Idx]), res.Trace).(*ssa.Call); ok {
+				if v, known := syms.evalVerdictHelper(cl, env); known {
+					got = v
+				}
+			}
 		}
 		want := expect(env)
 		if got != want {
